@@ -169,9 +169,9 @@ def gen_profile(rng, k):
     """(profile name, class name, constructor base, user settings).  The settings tree of the document is what the
     real constructor of that profile dumps."""
     kinds = ["current", "current-season", "current-weekday", "current-dev", "current-unc", "current-season-weekday",
-             "legacy", "legacy-season", "legacy-dev",
-             "billing", "billing-season", "billing-dev", "billing-weekday"]
-    kind = kinds[k % len(kinds)] if k < 3 * len(kinds) else rng.choice(kinds)
+             "legacy", "legacy-dev", "billing", "billing-season", "billing-dev", "billing-weekday", "legacy-season"]
+    # the legacy kinds without developer mode are rejected on reload (finding C01-K1): visited, but rarely
+    kind = kinds[k % len(kinds)] if k < len(kinds) else rng.choice(kinds[:6] * 2 + kinds[7:12] * 2 + ["legacy", "legacy-season"])
     base = kind.split("-")[0]
     u = {}
     if "season" in kind:
